@@ -179,7 +179,18 @@ def _drift(spec, ctx, model, states, t0, sigdata):
     if not np.all(np.isfinite(E)):
         ctx.violation("Rattle.solve/energy", "non-finite energy along the run", det)
     elif last > 2.0 * first + floor:
-        ctx.violation("Rattle.solve/energy", "energy-error envelope grows: maximum over the last third exceeds twice the maximum over the first third", det)
+        # a drift moves the MEAN energy error (a linear trend that triples the envelope shifts the mean of the last third by two
+        # thirds of it); an envelope that swells because modes beat against each other leaves the mean where it was - seen on
+        # the unchanged tree for a three-body chain, where the envelope rises for 25 s and falls again while the mean wanders
+        # by a tenth of it (DESIGN 8.4). Such a case is not decided by a run of this length.
+        sE = E - E[0]
+        shift = abs(float(sE[-third:].mean()) - float(sE[:third].mean()))
+        det.update({"mean_shift_first_to_last_third": shift})
+        if shift > 0.25 * last:
+            ctx.violation("Rattle.solve/energy", "energy-error envelope grows: maximum over the last third exceeds twice the maximum over the first third", det)
+        else:
+            ctx.count("drift:envelope_modulated_without_shift_of_the_mean")
+            ctx.undecided("energy-error envelope larger in the last third, but its mean has not moved: modulation or drift cannot be told apart in a run of this length")
     ctx.rec["extra"]["drift_ratio_list"] = [round(last / max(first, floor, 1e-300), 3)]
     ctx.sig(sigdata + [dt, n], nontrivial=above and float(np.abs(sol.u).max()) > 0)
     ctx.sample(det)
